@@ -92,7 +92,13 @@ func Harness_C07_permute() {
 	// how the vehicles are named: 0 both by id; 1/2 the second anonymous (no descriptor at all / a descriptor
 	// naming nothing); 3 both by label only; 4 both by licence plate only (distinct values)
 	isV0 := func(v *Vehicle) bool { return v.ID != nil && v.ID.ID == *vdesc[0].Id }
-	switch hConcretize(vr.Int("vehicle.naming", 0, 4), 0, 4) {
+	var ownDesc0 *gtfsrt.VehicleDescriptor // mode 5: vehicle 0's own entity carries a label as well, references name the id only
+	switch hConcretize(vr.Int("vehicle.naming", 0, 5), 0, 5) {
+	case 5:
+		lbl := vr.Str("vehicle0.label")
+		vr.Assume(lbl != "")
+		ownDesc0 = &gtfsrt.VehicleDescriptor{Id: vdesc[0].Id, Label: &lbl}
+		isV0 = func(v *Vehicle) bool { return v.ID != nil && v.ID.ID == *vdesc[0].Id && v.ID.Label == lbl }
 	case 1:
 		vdesc[1] = nil
 	case 2:
@@ -105,6 +111,10 @@ func Harness_C07_permute() {
 		isV0 = func(v *Vehicle) bool { return v.ID != nil && v.ID.LicensePlate == *vdesc[0].LicensePlate }
 	}
 	refV0, refT0, refT1 := vr.Bool("tu0.refs_vehicle0"), vr.Bool("vp0.refs_trip0"), vr.Bool("vp1.refs_trip1")
+	if ownDesc0 != nil {
+		// the two descriptors name different vehicles: trip 0 may be associated with only one of them (conflict-freedom)
+		vr.Assume(!(refV0 && refT0))
+	}
 	kinds := make([]int, E)
 	var ents []*gtfsrt.FeedEntity
 	for e := 0; e < E; e++ {
@@ -113,6 +123,10 @@ func Harness_C07_permute() {
 			vr.Assume(kinds[p] != kinds[e])
 		}
 		ents = append(ents, hC07Entity(kinds[e], tdesc, vdesc, refV0, refT0, refT1))
+		if kinds[e] == 1 && ownDesc0 != nil {
+			c := *ownDesc0
+			ents[e].Vehicle.Vehicle = &c
+		}
 	}
 	parse := func(es []*gtfsrt.FeedEntity) *Realtime {
 		r, err := ParseRealtime(vr.Marshal(&gtfsrt.FeedMessage{Header: hHeader("header"), Entity: es}), &ParseRealtimeOptions{})
